@@ -279,3 +279,210 @@ package anytype
 //@     invariant shape: len(slice) == idx && cap(slice) == len(ego.val) && arr(slice) == a0
 //@     invariant elems: forall j int :: 0 <= j && j < idx ==> slice[j] == valOf(ego.val[j])
 //@     decreases len(ego.val) - idx
+
+// ---------------------------------------------------------------------------
+// List: typed views (C14)
+// ---------------------------------------------------------------------------
+
+//@ template typed-slice(NAME, KIND, TEST, PAYLOAD)
+//@ func (*list).NAME [C14 C17 C09 C19]
+//@   requires invL(ego)
+//@   let n := len(ego.val)
+//@   let A := mem(ego.val)
+//@   assigns  nothing
+//@   panics_iff false
+//@   ensures  own-storage: fresh(arr(result)) && off(result) == 0 [C09 C14]
+//@   ensures  count: len(result) == cntK(A, KIND, n)
+//@   ensures  pick: forall k int :: 0 <= k && k < n && TEST(ego.val[k]) ==> 0 <= cntK(A, KIND, k) && cntK(A, KIND, k) < len(result) && result[cntK(A, KIND, k)] == PAYLOAD(ego.val[k])
+//@   ensures  all: (forall k int :: 0 <= k && k < n ==> TEST(ego.val[k])) ==> len(result) == n && (forall k int :: 0 <= k && k < n ==> result[k] == PAYLOAD(ego.val[k]))
+//@   loop 1
+//@     assigns arr(slice)
+//@     elet a0 := arr(slice)
+//@     invariant range: 0 <= idx && idx <= n
+//@     invariant shape: len(slice) == cntK(A, KIND, idx) && len(slice) <= idx && cap(slice) == n && arr(slice) == a0
+//@     invariant pick: forall k int :: 0 <= k && k < idx && TEST(ego.val[k]) ==> 0 <= cntK(A, KIND, k) && cntK(A, KIND, k) < len(slice) && slice[cntK(A, KIND, k)] == PAYLOAD(ego.val[k])
+//@     invariant all: (forall k int :: 0 <= k && k < idx ==> TEST(ego.val[k])) ==> len(slice) == idx && (forall k int :: 0 <= k && k < idx ==> slice[k] == PAYLOAD(ego.val[k]))
+//@     decreases n - idx
+//@ end
+//@ instantiate typed-slice(ObjectSlice, TObject, isVObj, ident)
+//@ instantiate typed-slice(ListSlice, TList, isVList, ident)
+//@ instantiate typed-slice(StringSlice, TString, isWStr, wstr)
+//@ instantiate typed-slice(BoolSlice, TBool, isWBool, wbool)
+//@ instantiate typed-slice(IntSlice, TInt, isWInt, wint)
+//@ instantiate typed-slice(FloatSlice, TFloat, isWFloat, wfloat)
+
+//@ template all-kind(NAME, TEST)
+//@ func (*list).NAME pure [C14]
+//@   requires invL(ego)
+//@   panics_iff false
+//@   ensures  all: result == (forall k int :: 0 <= k && k < len(ego.val) ==> TEST(ego.val[k]))
+//@   loop 1
+//@     invariant range: 0 <= idx && idx <= len(ego.val)
+//@     invariant so-far: forall k int :: 0 <= k && k < idx ==> TEST(ego.val[k])
+//@     decreases len(ego.val) - idx
+//@ end
+//@ instantiate all-kind(AllObjects, isVObj)
+//@ instantiate all-kind(AllLists, isVList)
+//@ instantiate all-kind(AllStrings, isWStr)
+//@ instantiate all-kind(AllBools, isWBool)
+//@ instantiate all-kind(AllInts, isWInt)
+//@ instantiate all-kind(AllFloats, isWFloat)
+//@ instantiate all-kind(AllNumeric, isNumeric)
+
+// ForEach family: the ghost trace (trlen, trA, trB) records every callback invocation.
+//@ func (*list).ForEach callbacks [C14 C19]
+//@   requires invL(ego)
+//@   let n := len(ego.val)
+//@   let t0 := trlen()
+//@   assigns  nothing
+//@   panics_iff false
+//@   ensures  count: trlen() == t0 + n
+//@   ensures  calls: forall j int :: t0 <= j && j < t0 + n ==> trA(j) == VInt(j - t0) && trB(j) == valOf(ego.val[j - t0])
+//@   ensures  prefix: forall j int :: 0 <= j && j < t0 ==> trA(j) == old(trA(j)) && trB(j) == old(trB(j))
+//@   ensures  fluent: result == ego.ptr [C19]
+//@   loop 1
+//@     assigns nothing
+//@     invariant range: 0 <= idx && idx <= n
+//@     invariant count: trlen() == t0 + idx
+//@     invariant calls: forall j int :: t0 <= j && j < t0 + idx ==> trA(j) == VInt(j - t0) && trB(j) == valOf(ego.val[j - t0])
+//@     invariant prefix: forall j int :: 0 <= j && j < t0 ==> trA(j) == old(trA(j)) && trB(j) == old(trB(j))
+//@     decreases n - idx
+
+//@ func (*list).ForEachValue callbacks [C14 C19 C13]
+//@   requires invL(ego)
+//@   let n := len(ego.val)
+//@   let t0 := trlen()
+//@   assigns  nothing
+//@   panics_iff false
+//@   ensures  count: trlen() == t0 + n
+//@   ensures  calls: forall j int :: t0 <= j && j < t0 + n ==> trA(j) == valOf(ego.val[j - t0])
+//@   ensures  prefix: forall j int :: 0 <= j && j < t0 ==> trA(j) == old(trA(j)) && trB(j) == old(trB(j))
+//@   ensures  fluent: result == ego.ptr [C19]
+//@   loop 1
+//@     assigns nothing
+//@     invariant range: 0 <= idx && idx <= n
+//@     invariant count: trlen() == t0 + idx
+//@     invariant calls: forall j int :: t0 <= j && j < t0 + idx ==> trA(j) == valOf(ego.val[j - t0])
+//@     invariant prefix: forall j int :: 0 <= j && j < t0 ==> trA(j) == old(trA(j)) && trB(j) == old(trB(j))
+//@     decreases n - idx
+
+//@ template foreach-kind(NAME, KIND, TEST, ARG)
+//@ func (*list).NAME callbacks [C14 C19]
+//@   requires invL(ego)
+//@   let n := len(ego.val)
+//@   let A := mem(ego.val)
+//@   let t0 := trlen()
+//@   assigns  nothing
+//@   panics_iff false
+//@   ensures  count: trlen() == t0 + cntK(A, KIND, n)
+//@   ensures  calls: forall k int :: {cntK(A, KIND, k)} 0 <= k && k < n && TEST(ego.val[k]) ==> 0 <= cntK(A, KIND, k) && cntK(A, KIND, k) < cntK(A, KIND, n) && trA(t0 + cntK(A, KIND, k)) == ARG(ego.val[k])
+//@   ensures  prefix: forall j int :: 0 <= j && j < t0 ==> trA(j) == old(trA(j)) && trB(j) == old(trB(j))
+//@   ensures  fluent: result == ego.ptr [C19]
+//@   loop 1
+//@     assigns nothing
+//@     invariant range: 0 <= idx && idx <= n
+//@     invariant count: trlen() == t0 + cntK(A, KIND, idx) && 0 <= cntK(A, KIND, idx)
+//@     invariant calls: forall k int :: {cntK(A, KIND, k)} 0 <= k && k < idx && TEST(ego.val[k]) ==> 0 <= cntK(A, KIND, k) && cntK(A, KIND, k) < cntK(A, KIND, idx) && trA(t0 + cntK(A, KIND, k)) == ARG(ego.val[k])
+//@     invariant prefix: forall j int :: 0 <= j && j < t0 ==> trA(j) == old(trA(j)) && trB(j) == old(trB(j))
+//@     decreases n - idx
+//@ end
+//@ instantiate foreach-kind(ForEachObject, TObject, isVObj, ident)
+//@ instantiate foreach-kind(ForEachList, TList, isVList, ident)
+//@ instantiate foreach-kind(ForEachString, TString, isWStr, argStr)
+//@ instantiate foreach-kind(ForEachBool, TBool, isWBool, argBool)
+//@ instantiate foreach-kind(ForEachInt, TInt, isWInt, argInt)
+//@ instantiate foreach-kind(ForEachFloat, TFloat, isWFloat, argFloat)
+
+//@ func (*list).Reduce callbacks [C14 C18]
+//@   requires invL(ego)
+//@   let n := len(ego.val)
+//@   let t0 := trlen()
+//@   assigns  nothing
+//@   panics_iff false
+//@   ensures  count: trlen() == t0 + n
+//@   ensures  elems: forall j int :: t0 <= j && j < t0 + n ==> trB(j) == valOf(ego.val[j - t0])
+//@   ensures  chain0: n > 0 ==> trA(t0) == initial
+//@   ensures  chain: forall j int :: t0 < j && j < t0 + n ==> trA(j) == cbret(trA(j-1), trB(j-1))
+//@   ensures  result: result == ((n == 0) ? initial : cbret(trA(t0+n-1), trB(t0+n-1)))
+//@   ensures  prefix: forall j int :: 0 <= j && j < t0 ==> trA(j) == old(trA(j)) && trB(j) == old(trB(j))
+//@   loop 1
+//@     assigns nothing
+//@     invariant range: 0 <= idx && idx <= n
+//@     invariant count: trlen() == t0 + idx
+//@     invariant elems: forall j int :: t0 <= j && j < t0 + idx ==> trB(j) == valOf(ego.val[j - t0])
+//@     invariant chain0: idx > 0 ==> trA(t0) == initial
+//@     invariant chain: forall j int :: t0 < j && j < t0 + idx ==> trA(j) == cbret(trA(j-1), trB(j-1))
+//@     invariant acc: result == ((idx == 0) ? initial : cbret(trA(t0+idx-1), trB(t0+idx-1)))
+//@     invariant prefix: forall j int :: 0 <= j && j < t0 ==> trA(j) == old(trA(j)) && trB(j) == old(trB(j))
+//@     decreases n - idx
+
+//@ template reduce-kind(NAME, KIND, TEST, ARG, WRAP)
+//@ func (*list).NAME callbacks [C14 C18]
+//@   requires invL(ego)
+//@   let n := len(ego.val)
+//@   let A := mem(ego.val)
+//@   let t0 := trlen()
+//@   let c := cntK(A, KIND, n)
+//@   assigns  nothing
+//@   panics_iff false
+//@   ensures  count: trlen() == t0 + c
+//@   ensures  elems: forall k int :: {cntK(A, KIND, k)} 0 <= k && k < n && TEST(ego.val[k]) ==> 0 <= cntK(A, KIND, k) && cntK(A, KIND, k) < c && trB(t0 + cntK(A, KIND, k)) == ARG(ego.val[k])
+//@   ensures  chain0: c > 0 ==> trA(t0) == WRAP(initial)
+//@   ensures  chain: forall j int :: t0 < j && j < t0 + c ==> trA(j) == cbret(trA(j-1), trB(j-1))
+//@   ensures  result: WRAP(result) == ((c == 0) ? WRAP(initial) : cbret(trA(t0+c-1), trB(t0+c-1)))
+//@   ensures  prefix: forall j int :: 0 <= j && j < t0 ==> trA(j) == old(trA(j)) && trB(j) == old(trB(j))
+//@   loop 1
+//@     assigns nothing
+//@     let ci := cntK(A, KIND, idx)
+//@     invariant range: 0 <= idx && idx <= n && 0 <= ci
+//@     invariant count: trlen() == t0 + ci
+//@     invariant elems: forall k int :: {cntK(A, KIND, k)} 0 <= k && k < idx && TEST(ego.val[k]) ==> 0 <= cntK(A, KIND, k) && cntK(A, KIND, k) < ci && trB(t0 + cntK(A, KIND, k)) == ARG(ego.val[k])
+//@     invariant chain0: ci > 0 ==> trA(t0) == WRAP(initial)
+//@     invariant chain: forall j int :: t0 < j && j < t0 + ci ==> trA(j) == cbret(trA(j-1), trB(j-1))
+//@     invariant acc: WRAP(result) == ((ci == 0) ? WRAP(initial) : cbret(trA(t0+ci-1), trB(t0+ci-1)))
+//@     invariant prefix: forall j int :: 0 <= j && j < t0 ==> trA(j) == old(trA(j)) && trB(j) == old(trB(j))
+//@     decreases n - idx
+//@ end
+//@ instantiate reduce-kind(ReduceStrings, TString, isWStr, argStr, VStr)
+//@ instantiate reduce-kind(ReduceInts, TInt, isWInt, argInt, VInt)
+//@ instantiate reduce-kind(ReduceFloats, TFloat, isWFloat, argFloat, VFloat)
+
+// Map / Filter families: mode KIND = 0 visits every element (argument = what Get returns).
+//@ template map-kind(NAME, KIND, A0, A1)
+//@ func (*list).NAME callbacks [C14 C09 C12]
+//@   requires invL(ego)
+//@   let n := len(ego.val)
+//@   let A := mem(ego.val)
+//@   let t0 := trlen()
+//@   let c := cntV(A, KIND, n)
+//@   assigns  nothing
+//@   panics_iff exists k int :: 0 <= k && k < n && visited(KIND, ego.val[k]) && !supp(cbret(A0, A1))
+//@   plet r := list(vlref(result))
+//@   ensures  new: isVList(result) && fresh(r) && plain(r) && invL(r) && r.ptr == result
+//@   ensures  own-storage: fresh(arr(r.val)) [C09 C14]
+//@   ensures  len: len(r.val) == c
+//@   ensures  elems: forall k int :: {cntV(A, KIND, k)} 0 <= k && k < n && visited(KIND, ego.val[k]) ==> 0 <= cntV(A, KIND, k) && cntV(A, KIND, k) < c && wrapsS(r.val[cntV(A, KIND, k)], cbret(A0, A1))
+//@   ensures  count: trlen() == t0 + c
+//@   ensures  calls: forall k int :: {cntV(A, KIND, k)} 0 <= k && k < n && visited(KIND, ego.val[k]) ==> trA(t0 + cntV(A, KIND, k)) == A0 && trB(t0 + cntV(A, KIND, k)) == A1
+//@   ensures  prefix: forall j int :: 0 <= j && j < t0 ==> trA(j) == old(trA(j)) && trB(j) == old(trB(j))
+//@   loop 1
+//@     assigns list(list(vlref(result)))
+//@     let r := list(vlref(result))
+//@     let ci := cntV(A, KIND, idx)
+//@     invariant range: 0 <= idx && idx <= n && 0 <= ci
+//@     invariant hdr: isVList(result) && fresh(r) && plain(r) && invL(r) && r.ptr == result && fresh(arr(r.val)) && len(r.val) == ci
+//@     invariant elems: forall k int :: {cntV(A, KIND, k)} 0 <= k && k < idx && visited(KIND, ego.val[k]) ==> 0 <= cntV(A, KIND, k) && cntV(A, KIND, k) < ci && wrapsS(r.val[cntV(A, KIND, k)], cbret(A0, A1))
+//@     invariant none-bad: forall k int :: 0 <= k && k < idx && visited(KIND, ego.val[k]) ==> supp(cbret(A0, A1))
+//@     invariant count: trlen() == t0 + ci
+//@     invariant calls: forall k int :: {cntV(A, KIND, k)} 0 <= k && k < idx && visited(KIND, ego.val[k]) ==> trA(t0 + cntV(A, KIND, k)) == A0 && trB(t0 + cntV(A, KIND, k)) == A1
+//@     invariant prefix: forall j int :: 0 <= j && j < t0 ==> trA(j) == old(trA(j)) && trB(j) == old(trB(j))
+//@     decreases n - idx
+//@ end
+//@ instantiate map-kind(Map, 0, VInt(k), valOf(ego.val[k]))
+//@ instantiate map-kind(MapValues, 0, valOf(ego.val[k]), VNil)
+//@ instantiate map-kind(MapObjects, TObject, ego.val[k], VNil)
+//@ instantiate map-kind(MapLists, TList, ego.val[k], VNil)
+//@ instantiate map-kind(MapStrings, TString, argStr(ego.val[k]), VNil)
+//@ instantiate map-kind(MapBools, TBool, argBool(ego.val[k]), VNil)
+//@ instantiate map-kind(MapInts, TInt, argInt(ego.val[k]), VNil)
+//@ instantiate map-kind(MapFloats, TFloat, argFloat(ego.val[k]), VNil)
